@@ -2,7 +2,7 @@ SPECIFICATION Spec
 CONSTANTS
   Runs = {1}
   Params <- Params_F
-  OrderKinds = {"balance", "trade"}
+  OrderKinds = {"trade"}
 INVARIANTS TypeOK PrefixAlways CompleteInOrder FeedInOrder SentOK AppliedOK SummaryOK
 PROPERTIES Isolation Monotone 
 CHECK_DEADLOCK FALSE
